@@ -362,7 +362,7 @@ def ghaInSteps (content : Text) : Node → List PkgInfo
   | .mk info cs =>
     let n := Node.mk info cs
     let here : List PkgInfo :=
-      if info.kind == "block_mapping_pair" then
+      if info.kind == "block_mapping_pair" || info.kind == "flow_pair" then
         match n.childByField "key" with
         | some k =>
           if unquoteBoth (nodeText content k) == "uses".toList then
@@ -384,7 +384,7 @@ def ghaFind (content : Text) : Node → List PkgInfo
   | .mk info cs =>
     let n := Node.mk info cs
     let steps : Option Node :=
-      if info.kind == "block_mapping_pair" then
+      if info.kind == "block_mapping_pair" || info.kind == "flow_pair" then
         match n.childByField "key" with
         | some k => if unquoteBoth (nodeText content k) == "steps".toList then n.childByField "value" else none
         | none => none
